@@ -267,6 +267,66 @@ type e1Failure struct {
 	Phase  string // generate | compile
 	Output string
 	Files  map[string]string
+	// Together lists the cases of the smallest group found that fails only in
+	// combination (every case of it passes when generated in two halves).
+	Together []string
+}
+
+// probeGroup generates and type-checks one group of cases.
+func probeGroup(res *e1Result, cases []*e1Case, name string) (failed bool, phase, out string) {
+	dir := filepath.Join(scratchDir, "e1", name)
+	files := scenarioFiles(cases, "")
+	writeScenario(dir, files)
+	defer os.RemoveAll(dir)
+	g := run(dir, 3*time.Minute, nil, buildGoderive(), "./p")
+	res.GenRuns++
+	if g.TimedOut || g.Exit != 0 {
+		return true, "generate", fmt.Sprintf("goderive exit %d\n%s", g.Exit, g.Stderr)
+	}
+	pc := run(dir, 10*time.Minute, nil, "go", "build", "-gcflags=-e", "./p")
+	res.Builds++
+	if pc.Exit == 0 && files["p/cases_test.go"] != "" {
+		pc = run(dir, 10*time.Minute, nil, "go", "test", "-c", "-o", os.DevNull, "-gcflags=-e", "./p")
+		pc.Stderr += pc.Stdout
+		res.Builds++
+	}
+	if pc.Exit != 0 {
+		return true, "compile", pc.Stderr
+	}
+	return false, "", ""
+}
+
+// shrinkInteraction reduces a failing group whose halves pass to a small group
+// that still fails (greedy chunk removal, at most 40 probes).
+func shrinkInteraction(res *e1Result, cases []*e1Case, name, phase, out string) ([]*e1Case, string, string) {
+	cur := append([]*e1Case{}, cases...)
+	budget := 40
+	for chunk := (len(cur) + 1) / 2; chunk >= 1 && budget > 0; {
+		progress := false
+		for i := 0; i < len(cur) && len(cur) > 1 && budget > 0; {
+			j := i + chunk
+			if j > len(cur) {
+				j = len(cur)
+			}
+			cand := append(append([]*e1Case{}, cur[:i]...), cur[j:]...)
+			if len(cand) == 0 {
+				break
+			}
+			budget--
+			if f, ph, o := probeGroup(res, cand, fmt.Sprintf("%ss%d", name, budget)); f {
+				cur, phase, out, progress = cand, ph, o, true
+			} else {
+				i = j
+			}
+		}
+		if chunk == 1 && !progress {
+			break
+		}
+		if chunk > 1 {
+			chunk = (chunk + 1) / 2
+		}
+	}
+	return cur, phase + "-together", out
 }
 
 type e1Result struct {
@@ -298,8 +358,20 @@ func runBatchPipeline(b *e1Batch, prop string, env []string, runs int, hooks ...
 				return
 			}
 			h := len(cases) / 2
+			before := len(res.Failures)
 			rec(cases[:h], name+"a")
 			rec(cases[h:], name+"b")
+			if len(res.Failures) == before {
+				// both halves are fine on their own: the failure needs several cases
+				// together; shrink to a small failing group and report that
+				group, gphase, gout := shrinkInteraction(res, cases, name, phase, out)
+				gfiles := scenarioFiles(group, "")
+				var ids []string
+				for _, c := range group {
+					ids = append(ids, caseLabel(c))
+				}
+				res.Failures = append(res.Failures, e1Failure{Case: group[0], Phase: gphase, Output: gout, Files: gfiles, Together: ids})
+			}
 		}
 		g := run(dir, 3*time.Minute, nil, buildGoderive(), "./p")
 		res.GenRuns++
@@ -319,7 +391,7 @@ func runBatchPipeline(b *e1Batch, prop string, env []string, runs int, hooks ...
 		res.Builds++
 		if pc.Exit == 0 && files["p/cases_test.go"] != "" {
 			// in-package test files are only type-checked when the test binary is built
-			pc = run(dir, 10*time.Minute, nil, "go", "test", "-count=1", "-run", "^$", "./p")
+			pc = run(dir, 10*time.Minute, nil, "go", "test", "-c", "-o", os.DevNull, "-gcflags=-e", "./p")
 			pc.Stderr += pc.Stdout
 			res.Builds++
 		}
